@@ -99,10 +99,10 @@ Definition find_obs (paths : list sx) (p : sx) : option sx :=
   match find (fun po => sx_eqb (nth_sx 0 po) p) paths with Some po => Some (nth_sx 1 po) | None => None end.
 
 Definition range_in (lo hi : Z) (ab : sx) : bool := (lo <=? as_Z (nth_sx 0 ab)) && (as_Z (nth_sx 1 ab) <=? hi).
-Definition pair_mem (a b : nat) (l : list sx) : bool :=
-  existsb (fun ab => (as_Z (nth_sx 0 ab) =? Z.of_nat a) && (as_Z (nth_sx 1 ab) =? Z.of_nat b)) l.
-Definition range_mem (ab : sx) (l : list (nat * nat)) : bool :=
-  existsb (fun p => (as_Z (nth_sx 0 ab) =? Z.of_nat (fst p)) && (as_Z (nth_sx 1 ab) =? Z.of_nat (snd p))) l.
+Definition zfoot (l : list (nat * nat)) : list (Z * Z) := map (fun p => (Z.of_nat (fst p), Z.of_nat (snd p))) l.
+Definition zlog (l : list sx) : list (Z * Z) := map (fun ab => (as_Z (nth_sx 0 ab), as_Z (nth_sx 1 ab))) l.
+Definition zmem (p : Z * Z) (l : list (Z * Z)) : bool := existsb (fun q => (fst p =? fst q) && (snd p =? snd q)) l.
+Definition zsubset (a b : list (Z * Z)) : bool := forallb (fun p => zmem p b) a.
 
 Definition sx_lookup (k : sx) (d : list sx) : option sx :=
   match find (fun e => sx_eqb (nth_sx 0 e) k) d with Some e => Some (nth_sx 1 e) | None => None end.
@@ -225,10 +225,11 @@ Definition judge (c : sx) : sx :=
             && bytes_eqb (as_Ns (nth_sx 3 o)) (vnav_raw r v)
             && (let mv := vnav_value r dec v in
                 val_agrees (nth_sx 4 o) mv
-                && (let ft := vnav_foot v in
-                    forallb (fun ab => range_mem ab ft) (as_list (nth_sx 5 o))
+                && (let ft := zfoot (vnav_foot v) in
+                    let lg := zlog (as_list (nth_sx 5 o)) in
+                    zsubset lg ft
                     && match mv with
-                       | Some (Ok _) => forallb (fun p => pair_mem (fst p) (snd p) (as_list (nth_sx 5 o))) ft
+                       | Some (Ok _) => zsubset ft lg
                        | _ => true
                        end))
         | Err ex => is_err o (exn_code ex)
